@@ -123,3 +123,6 @@ pub assume_specification<T: Clone>[<T as std::borrow::ToOwned>::to_owned](t: &T)
 /// std: `Option::or_else`
 pub assume_specification<T, F: FnOnce() -> Option<T>>[Option::<T>::or_else](o: Option<T>, f: F) -> (r: Option<T>)
     ensures match o { Some(t) => r == Some(t), None => call_ensures(f, (), r) };
+/// std: `<[T]>::to_vec` clones every element (API neighbourhood of `to_owned`)
+pub assume_specification<T: Clone> [<[T]>::to_vec](s: &[T]) -> (r: Vec<T>)
+    ensures r@.len() == s@.len(), forall |i: int| 0 <= i < s@.len() ==> cloned(s@[i], #[trigger] r@[i]);
